@@ -29,7 +29,7 @@ theorem scan_marker_last (p cb) (proc : σ → Nat → Bytes → PRes σ) (st l)
 
 theorem scan_lone (p cb) (proc : σ → Nat → Bytes → PRes σ) (st l l2 rest) (h : isMarker l = true) (h2 : isMarker l2 = false) :
     scan p cb proc st (l :: l2 :: rest) =
-      if cb = some true then scan p cb proc { st with skip := true } rest else .error .corrupt := by
+      if cb = some true then scan p cb proc { st with skip := true } rest else .error (.corrupt st.ps) := by
   rw [scan.eq_def]; simp [h, h2]
 
 theorem scan_pair (p cb) (proc : σ → Nat → Bytes → PRes σ) (st l l2 rest) (h : isMarker l = true) (h2 : isMarker l2 = true) :
